@@ -686,6 +686,29 @@ func checkC05(c *Check) {
 			c.Hold("R7", o.Rule+":"+o.Key, o.posRaw, o.OK, o.Msg)
 		}
 	}
+	// R7b: "authenticated as required" with DANE is what verifyDANE / CheckConn decide: the level granted to the
+	// connection (and compared by local_policy and REQUIRETLS) is authenticated only over a match of the server's own
+	// certificate. The rest of C13's rules, evaluated here as a clause of this property.
+	c.Rule("R7b", "the DANE verdict that raises a connection to 'authenticated' needs a match of the server's own certificate against a usable authenticated record (C13.R1–R4, R6)", 10)
+	for _, o := range sub.obs {
+		if len(o.Rule) >= 2 && o.Rule[0] == 'R' && !(o.Rule == "R5" || (o.Rule == "R4" && strings.Contains(o.Key, "lookup-failure"))) {
+			c.Hold("R7b", o.Rule+":"+o.Key, o.posRaw, o.OK, o.Msg)
+		}
+	}
+	for f := range sub.funcs {
+		c.SawFunc(f)
+	}
+	// R8b: the quarantine flag reaches the target. It is written to the message metadata in the body stage, after every
+	// target's Start; a target in between (the queue) that copied the metadata at Start would hand the remote target a
+	// snapshot from before the verdict. C06.R5, a clause of "quarantined messages are never relayed".
+	c.Rule("R8b", "no delivery target copies the message metadata at Start: the quarantine verdict written later reaches the remote target through every intermediate target (C06.R5)", 5)
+	sub6 := newCheck("C06", c.P, c.Tier)
+	c06MetadataIdentity(sub6)
+	for _, o := range sub6.obs {
+		if o.Rule == "R5" {
+			c.Hold("R8b", o.Key, o.posRaw, o.OK, o.Msg)
+		}
+	}
 	c05PerDomainState(c)
 }
 
